@@ -231,7 +231,7 @@ func (dht *FullRT) findProvidersAsyncRoutine(ctx context.Context, key multihash.
   loop 0 invariant findAll == (count == 0)
   loop 0 invariant ps != nil
   ghost at before call(GetClosestPeers): assert(findAll || len(ps) < count)
-  ghost at before call(execOnMany): assert($arg2 == peers)
+  ghost at before call(execOnMany): assert($arg2 == peers && !$arg3 && $arg0 == queryctx)
 
 funclit 2 in (dht *FullRT) findProvidersAsyncRoutine(ctx context.Context, key multihash.Multihash, count int, peerOut chan peer.AddrInfo)
   props C08
@@ -353,6 +353,13 @@ func (dht *FullRT) execOnMany(ctx context.Context, fn func(context.Context, peer
   ensures [one-call-per-peer] imp(len(peers) > 0, $spawned == len(peers))
   loop 0 invariant $spawned == $key
   loop 1 invariant 0 <= numSuccess && numSuccess <= numDone && numDone <= len(peers) && $spawned == len(peers)
+  # a caller that did not ask for a sloppy exit gets control back only after
+  # EVERY started call has answered (the provider search closes its result
+  # channel right after: a worker still running would send on a closed channel)
+  ghostvar $got int = 0
+  loop 1 invariant $got == numDone
+  ghost at recv(errCh): $got = $got + 1
+  ensures [waits-for-every-call-unless-sloppy] imp(!sloppyExit, $got == len(peers))
   ghost at go(func): assert($arg0 == p); $spawned = $spawned + 1
 
 funclit 0 in (dht *FullRT) execOnMany(ctx context.Context, fn func(context.Context, peer.ID) error, peers []peer.ID, sloppyExit bool) int
